@@ -29,6 +29,7 @@ func init() {
 
 func runC15(c *Ctx) {
 	ruleAllocTableWriters(c, "C15.1")
+	ruleDeleteAllocation(c, "C15.1d")
 	ruleReleaseCoverage(c, "C15.2")
 	ruleErrorPathRelease(c, "C15.3")
 	ruleCloseUnderLock(c, "C15.4")
